@@ -22,6 +22,7 @@ fn w(name: &str, f: impl FnOnce() -> Result<(), String> + std::panic::UnwindSafe
 }
 const DID: &str = "did:example:issuer";
 const OTHER: &str = "did:example:other";
+const ISSUER_URL: &str = "did:example:issuer";
 const JWK: &str = r#"{"kty":"OKP","crv":"Ed25519","x":"11qYAYKxCrfVS_7TyWQHOg7hcvPapiMlrwIaaPcHURo"}"#;
 /// document `did` with method #k embedded under `rel` ("verificationMethod" or a relationship) and a bitmap service #rev with `revoked`
 fn doc_with(did: &str, rel: &str, revoked: &[u32]) -> CoreDocument {
@@ -137,6 +138,46 @@ fn main() {
     let nt = claims(DID, "", r#", "nonTransferable": true"#);
     if ok(&jwt("", &nt), &o("did:example:someone", SubjectHolderRelationship::SubjectOnNonTransferable)) { return Err("non-transferable credential accepted for another holder".into()); }
     if !ok(&jwt("", &nt), &o("did:example:subject", SubjectHolderRelationship::SubjectOnNonTransferable)) { return Err("non-transferable credential rejected for its subject".into()); }
+    Ok(())
+  });
+  w("vc_status_list_2021_entry_rules", || {
+    use identity_core::common::Context;
+    use identity_credential::credential::{Credential, CredentialBuilder, Issuer, Subject, Status};
+    use identity_credential::revocation::status_list_2021::{StatusList2021, StatusList2021CredentialBuilder, StatusList2021Entry, StatusPurpose};
+    use identity_credential::validator::JwtCredentialValidatorUtils as U;
+    let list_url = |n: u32| Url::parse(format!("https://example.com/status/{n}")).unwrap();
+    let slc = |n: u32, purpose: StatusPurpose, set: &[usize]| {
+      let mut c = StatusList2021CredentialBuilder::new(StatusList2021::default()).issuer(Issuer::Url(Url::parse(ISSUER_URL).unwrap())).purpose(purpose).subject_id(list_url(n)).build().unwrap();
+      c.update(|l| { for i in set { l.set_entry(*i, true)?; } Ok(()) }).unwrap();
+      c
+    };
+    let cred = |entry: Option<StatusList2021Entry>| -> Credential<Object> {
+      let mut b = CredentialBuilder::default().issuer(Url::parse(ISSUER_URL).unwrap()).subject(Subject::from_json(r#"{"id":"did:example:subject"}"#).unwrap()).context(Context::Url(Url::parse("https://example.com/ctx").unwrap()));
+      if let Some(e) = entry { b = b.status(Status::from(e)); }
+      b.build().unwrap()
+    };
+    let entry = |n: u32, purpose: StatusPurpose, idx: usize| StatusList2021Entry::new(list_url(n), purpose, idx, None);
+    let rev = slc(1, StatusPurpose::Revocation, &[7]);
+    let sus = slc(1, StatusPurpose::Suspension, &[7]);
+    let id = |c: &identity_credential::revocation::status_list_2021::StatusList2021Credential| c.id().cloned();
+    if id(&rev) != Some(list_url(1)) { return Err(format!("status list credential id is {:?}", id(&rev))); }
+    let run = |c: &Credential<Object>, l, s| U::check_status_with_status_list_2021(c, l, s).map_err(|e| format!("{e:?}"));
+    // valid / revoked / suspended, neighbours untouched
+    for (idx, want_ok) in [(6usize, true), (7, false), (8, true), (0, true)] {
+      let got = run(&cred(Some(entry(1, StatusPurpose::Revocation, idx))), &rev, StatusCheck::Strict);
+      if got.is_ok() != want_ok { return Err(format!("revocation list with bit 7 set, entry index {idx}: {got:?}")); }
+    }
+    match run(&cred(Some(entry(1, StatusPurpose::Revocation, 7))), &rev, StatusCheck::Strict) { Err(e) if e.contains("Revoked") => {}, other => return Err(format!("revoked entry reported as {other:?}")) }
+    match run(&cred(Some(entry(1, StatusPurpose::Suspension, 7))), &sus, StatusCheck::Strict) { Err(e) if e.contains("Suspended") => {}, other => return Err(format!("suspended entry reported as {other:?}")) }
+    // the entry must name THIS list and have the SAME purpose
+    if run(&cred(Some(entry(2, StatusPurpose::Revocation, 6))), &rev, StatusCheck::Strict).is_ok() { return Err("entry naming another status list credential accepted".into()); }
+    if run(&cred(Some(entry(1, StatusPurpose::Suspension, 6))), &rev, StatusCheck::Strict).is_ok() { return Err("suspension entry accepted against a revocation list".into()); }
+    if run(&cred(Some(entry(1, StatusPurpose::Revocation, 6))), &sus, StatusCheck::Strict).is_ok() { return Err("revocation entry accepted against a suspension list".into()); }
+    // no status / checking switched off
+    if run(&cred(None), &rev, StatusCheck::Strict).is_err() { return Err("credential without status rejected".into()); }
+    if run(&cred(Some(entry(1, StatusPurpose::Revocation, 7))), &rev, StatusCheck::SkipAll).is_err() { return Err("SkipAll does not skip".into()); }
+    // index outside the list
+    if run(&cred(Some(entry(1, StatusPurpose::Revocation, 10_000_000))), &rev, StatusCheck::Strict).is_ok() { return Err("index outside the list accepted".into()); }
     Ok(())
   });
   let _ = JwtValidationError::Revoked;
